@@ -143,9 +143,26 @@ def Lib.remove (l : Lib) (env : Env) (arg : Path) : Lib × Env × Out :=
     let (env', sys, e) := rmAll env wds
     (l', env', { ret := e, sys := sys })
 
+/-- the table update of `updatePath`/`register` once the kernel answered `wd` -/
+def Lib.applyAdd (l : Lib) (path : Path) (flags' : BitVec 32) (recurse : Bool) (wd : Nat) : Lib :=
+  let oldWd : Nat := (alLookup path l.pathT).getD 0     -- Go: zero value when absent
+  let existing : Option Watch := (alLookup path l.pathT).bind (fun wd => alLookup wd l.wdT)
+  let upd : Watch :=
+    match alLookup wd l.wdT with
+    | some e => e
+    | none =>
+      match existing with
+      | none => { wd := wd, path := path, flags := flags', recurse := recurse }
+      | some e => { e with wd := wd, flags := flags' }
+  let wdT1 := alInsert upd.wd upd l.wdT
+  let pathT1 := alInsert upd.path upd.wd l.pathT
+  let wdT2 := if upd.wd != oldWd then alErase oldWd wdT1 else wdT1
+  -- the new file is already listed under another path: that entry wins, this path is dropped
+  let pathT2 := if upd.wd != oldWd && alHas path l.pathT && upd.path != path then alErase path pathT1 else pathT1
+  { l with wdT := wdT2, pathT := pathT2 }
+
 /-- `inotify.register` inside `watches.updatePath` -/
 def Lib.register (l : Lib) (env : Env) (path : Path) (flags : BitVec 32) (recurse : Bool) : Lib × Env × Out :=
-  let oldWd : Nat := (alLookup path l.pathT).getD 0     -- Go: zero value when absent
   let existing : Option Watch := (alLookup path l.pathT).bind (fun wd => alLookup wd l.wdT)
   let flags' := match existing with
     | some e => flags ||| e.flags ||| IN_MASK_ADD
@@ -159,19 +176,7 @@ def Lib.register (l : Lib) (env : Env) (path : Path) (flags : BitVec 32) (recurs
       match existing with
       | some e => if e.wd != wd then ((env1.rm e.wd).1, [Sys.rmWatch e.wd]) else (env1, [])
       | none => (env1, [])
-    let upd : Watch :=
-      match alLookup wd l.wdT with
-      | some e => e
-      | none =>
-        match existing with
-        | none => { wd := wd, path := path, flags := flags', recurse := recurse }
-        | some e => { e with wd := wd, flags := flags' }
-    let wdT1 := alInsert upd.wd upd l.wdT
-    let pathT1 := alInsert upd.path upd.wd l.pathT
-    let wdT2 := if upd.wd != oldWd then alErase oldWd wdT1 else wdT1
-    -- the new file is already listed under another path: that entry wins, this path is dropped
-    let pathT2 := if upd.wd != oldWd && alHas path l.pathT && upd.path != path then alErase path pathT1 else pathT1
-    ({ l with wdT := wdT2, pathT := pathT2 }, env', { sys := .addWatch path flags' :: rmSys })
+    (l.applyAdd path flags' recurse wd, env', { sys := .addWatch path flags' :: rmSys })
 
 /-- `AddWith` without recursion (`ops`/`noFollow` as given by the options) -/
 def Lib.add (l : Lib) (env : Env) (arg : Path) (ops : BitVec 32) (noFollow : Bool) : Lib × Env × Out :=
